@@ -9,7 +9,6 @@ def jobs(tier):
 META = {
     "trusted_base": D.DFS_TRUSTED + ["std::string operations of the name construction are modelled on strings of at most 15 characters (models/dfs_model.h cstr_*)"],
     "assumptions": [],
-    "outside": ["\"image byte-identical afterwards\" and \"other commands create no files\" are facts about which library calls exist (ifstream, fopen \"rb\"), not pre/post-conditions of any function: supporting grep inventory only",
-                "extract-unused's make_name (ostringstream)"],
+    "outside": ["\"image byte-identical afterwards\" and \"other commands create no files\" are facts about which library calls exist (ifstream, fopen \"rb\"), not pre/post-conditions of any function"],
     "explanation": "for all 8+8 catalogue name bytes and any current directory: the host file created by extract-files is dest_dir + base with base non-empty, without '/', not '.' or '..'; otherwise the entry is refused with a diagnostic",
 }
